@@ -72,8 +72,27 @@ def _call(f, r_list, alpha, normalized, mode):
         return np.array([float(np.ravel(f(ri, alpha))[0]) for ri in r_list])
     if mode == "list":
         return np.ravel(np.asarray(f(list(r_list), alpha, normalized=normalized), dtype=float))
-    out = f(np.array(r_list, dtype=float), alpha, normalized=normalized)
+    # array input: ONE float64 array per list of radii, reused by every later array-mode call with the same radii
+    # (other alpha, other normalisation, the other function) - the library must leave it as it was given
+    key = tuple(float(v) for v in r_list)
+    arr = _SHARED_R.get(key)
+    if arr is None:
+        if len(_SHARED_R) > 64:
+            _SHARED_R.clear()
+        arr = _SHARED_R[key] = np.array(r_list, dtype=float)
+    out = f(arr, alpha, normalized=normalized)
+    if not np.array_equal(arr, np.array(r_list, dtype=float), equal_nan=True):
+        changed = arr.copy()
+        arr[...] = np.array(r_list, dtype=float)
+        raise _InputModified(f"{getattr(f, '__name__', f)} changed its radius array from {list(r_list)} to {changed.tolist()}")
     return np.ravel(np.asarray(out, dtype=float))
+
+
+_SHARED_R = {}
+
+
+class _InputModified(Exception):
+    pass
 
 
 def _offset(alpha, r, q):
@@ -506,9 +525,23 @@ def selftest():
     assert _ulp_steps(SWITCH, -1) < SWITCH < _ulp_steps(SWITCH, 1)
 
 
+def _guard(body):
+    """Turns a modified input array (detected inside _call) into a reported discrepancy."""
+
+    def wrapped(case, ctx):
+        try:
+            body(case, ctx)
+        except _InputModified as exc:
+            ctx.fail("input-radius-array-modified", str(exc))
+
+    return wrapped
+
+
 def subchecks(tier, seed):
     q = tier == "quick"
     pins = [
+        # the centre itself among the radii of a reused array (regression idea: r = 0 entries overwritten by a dummy radius)
+        {"kind": "s", "normalized": True, "alpha": 0.7, "r": [0.0, 0.4, 0.0, 2.0], "input": "array"},
         # pinned probes of KF-C17-ptype (r = 0: factor 2.5; mid range; unnormalised) and s-type anchors
         {"kind": "p", "normalized": True, "alpha": 1.0, "r": [0.0, 0.5, 1.0], "input": "array"},
         {"kind": "p", "normalized": False, "alpha": 2.5, "r": [1e-13, 0.3], "input": "scalar"},
@@ -521,9 +554,9 @@ def subchecks(tier, seed):
     ]
     pins_fd = [{"kind": "p", "normalized": True, "alpha": 1.0, "x": [0.3, 1.0, 2.0]}, {"kind": "s", "normalized": True, "alpha": 1.0, "x": [0.3, 1.0, 2.0]}]
     return [
-        SubCheck("pointwise", body_pointwise, strategy=_pointwise_strategy(), examples=12000 if q else 150000, cases=pins, shards=16),
-        SubCheck("switch", body_switch, strategy=_switch_strategy(), examples=1600 if q else 16000, shards=16),
-        SubCheck("poisson_fd", body_poisson, strategy=_poisson_strategy(), examples=4000 if q else 40000, cases=pins_fd, shards=16),
+        SubCheck("pointwise", _guard(body_pointwise), strategy=_pointwise_strategy(), examples=12000 if q else 150000, cases=pins, shards=16),
+        SubCheck("switch", _guard(body_switch), strategy=_switch_strategy(), examples=1600 if q else 16000, shards=16),
+        SubCheck("poisson_fd", _guard(body_poisson), strategy=_poisson_strategy(), examples=4000 if q else 40000, cases=pins_fd, shards=16),
         SubCheck("multicentre", body_multi, strategy=_multi_strategy(), examples=4000 if q else 40000, shards=16),
         SubCheck("loader", body_loader, cases=[{"z": z} for z in range(1, 119)], exhaustive=True, shards=8),
     ]
